@@ -7,7 +7,7 @@ Full statements (FALSE of the pinned code – the model is faithful and reproduc
     ∀ v, v.wf → rebuild v = .ok v                    -- FromCRDT (SetYSON v) = v
 
 `roundTrip v = parse v.isObj (marshal v)` is the text-level `Unmarshal(v.Marshal())`
-(strconv.Quote, regexp + ReplaceAll pre-pass, encoding/json, parseObject …);
+(quoteJSON, string-literal-aware pre-pass, encoding/json, parseObject …);
 `rebuild` is json.SetYSON into `document.New` followed by yson.FromCRDT
 (step 2 of packs.Compact, and revisions.Restore after `Unmarshal`).
 
@@ -17,10 +17,10 @@ What is proved here (all for values of unbounded size and depth, by structural i
   - `yson_prepass_partial`: the pre-pass (string literals and keys copied verbatim, the
     regexp + ten ReplaceAll passes applied to the text between them – /repo 0cf3884e) turns
     `marshal v` into the JSON text `marshalP v`; no condition on string contents,
-  - `yson_json_partial`: the JSON reader (encoding/json into `interface{}`: strconv.Quote
+  - `yson_json_partial`: the JSON reader (encoding/json into `interface{}`: quoteJSON
     escapes, number literals, object canonicalisation) maps that text to the tree `toJ v`,
   - `yson_tree_roundtrip_partial`: the tree-level half of `Unmarshal` inverts `toJ`
-    (wrapper recognition by the `type` member, number precision through float64, counters,
+    (wrapper recognition by the `type` member, integers via strconv.ParseInt, counters,
     dedup counters, base64, dates, text runs with attributes, trees with attributes).
 * `rebuild_partial` – every well-formed `RebuildSafe` value survives SetYSON → FromCRDT.
 * `unmarshal_never_panics` – no text at all makes the model of `Unmarshal` panic.
@@ -59,7 +59,7 @@ theorem yson_prepass_partial (v : Yson) (hw : v.wf = true) (hs : (atoms v).all A
     preprocess (marshal v) = marshalP v :=
   (pp_marshal v hw hs).eq
 
-/-- the pre-pass copies every string printed by strconv.Quote verbatim – unconditionally -/
+/-- the pre-pass copies every string printed by quoteJSON verbatim – unconditionally -/
 theorem yson_prepass_string (s rest : Str) : ppOut [] (quote s ++ rest) = quote s ++ ppOut [] rest :=
   Good.quote s rest
 
@@ -178,16 +178,31 @@ theorem prepass_in_string_fixed : roundTrip wParen = .ok wParen ∧ roundTrip wW
   ⟨yson_roundtrip_partial _ (Or.inl rfl) (by decide) (by decide),
    yson_roundtrip_partial _ (Or.inl rfl) (by decide) (by decide)⟩
 
-def wBell : Yson := .obj [(cp%"a", .str [7])]
-/-- strconv.Quote writes `\a` (also `\v`, `\x..`, `\U........`), which JSON does not know -/
-theorem go_quote_witness : wBell.wf = true ∧ roundTrip wBell ≠ .ok wBell :=
-  ⟨by decide, Res.ne_ok_of_isOk_false (by decide)⟩
+/-! repaired by the JSON-string-literal fix (quoteJSON for every string and every key): the
+statements below are about the OLD printer (`V0Quote`, Model/YsonV0.lean: strconv.Quote,
+raw keys) and keep the repaired defects on record; with the current printer the same values
+round-trip. -/
+
+def wBell : Yson := .obj [(cp%"a", .str [7, 11, 1, 127, 0xE0001])]
+/-- OLD printer: strconv.Quote wrote `\a \v \x01 \x7f \U000e0001`, which JSON does not know -/
+theorem go_quote_v0_witness : wBell.wf = true ∧ V0Quote.roundTrip wBell ≠ .ok wBell
+    ∧ roundTrip wBell = .ok wBell :=
+  ⟨by decide +kernel, Res.ne_ok_of_isOk_false (by decide +kernel), yson_roundtrip_partial _ (Or.inl rfl) (by decide +kernel) (by decide +kernel)⟩
 
 def wKey : Yson := .obj [(cp%"a\\nb", .null)]
-/-- object keys are printed unescaped: the key `a\nb` (backslash, n) comes back as a, newline, b -/
-theorem key_unescaped_witness : wKey.wf = true ∧ roundTrip wKey ≠ .ok wKey
-    ∧ (roundTrip wKey).isOk (.obj [(cp%"a\nb", .null)]) = true :=
-  ⟨by decide, Res.ne_ok_of_isOk_false (by decide), by decide⟩
+/-- OLD printer: object keys were printed unescaped: the key `a\nb` (backslash, n) came back
+as a, newline, b -/
+theorem key_unescaped_v0_witness : wKey.wf = true ∧ V0Quote.roundTrip wKey ≠ .ok wKey
+    ∧ (V0Quote.roundTrip wKey).isOk (.obj [(cp%"a\nb", .null)]) = true
+    ∧ roundTrip wKey = .ok wKey :=
+  ⟨by decide +kernel, Res.ne_ok_of_isOk_false (by decide +kernel), by decide +kernel,
+   yson_roundtrip_partial _ (Or.inl rfl) (by decide +kernel) (by decide +kernel)⟩
+
+def wKeyQuote : Yson := .obj [(cp%"a\"b", .int 1), (cp%"c\nd", .null)]
+/-- OLD printer: a key with a double quote or a raw control character made the JSON invalid -/
+theorem key_quote_v0_witness : wKeyQuote.wf = true ∧ V0Quote.roundTrip wKeyQuote ≠ .ok wKeyQuote
+    ∧ roundTrip wKeyQuote = .ok wKeyQuote :=
+  ⟨by decide +kernel, Res.ne_ok_of_isOk_false (by decide +kernel), yson_roundtrip_partial _ (Or.inl rfl) (by decide +kernel) (by decide +kernel)⟩
 
 def wNaN : Yson := .obj [(cp%"a", .double .nan)]
 theorem double_nonfinite_witness : wNaN.wf = true ∧ roundTrip wNaN ≠ .ok wNaN :=
